@@ -98,6 +98,10 @@ SCENARIOS = {
                                                 ["wmeta", "f#1", 0, "a.b", 9105, False], ["wmeta", "f#1", 1, "a.b", 9105, False],
                                                 ["fcall", "f#1", 0], ["rmeta", "f#1", 1, "log"], ["rmeta", "f#1", 1, "a.b"], ["read", "f#1", 1], ["rmeta", "f#1", 0, "a.b"],
                                                 ["wmeta", "f#1", 1, "a.b", 9106, True], ["rmeta", "f#1", 1, "a.b"], ["lmems", "f#1"]],
+    "sibling-calls-shared-override-metadata": [["memoize", "f#1", 0, 9111, "b", 9111, 40, "ov/a"], ["memoize", "f#1", 1, 9112, "b", 9111, 40, "ov/a"],
+                                               ["wmeta", "f#1", 0, "log", 9113, True], ["wmeta", "f#1", 1, "log", 9114, True],
+                                               ["rmeta", "f#1", 0, "log"], ["rmeta", "f#1", 1, "log"], ["fcall", "f#1", 1], ["rmeta", "f#1", 0, "log"],
+                                               ["read", "f#1", 0], ["rmeta", "f#1", 1, "log"], ["lmems", "f#1"]],
     "oversize-rememoize": [["memoize", "f#1", 0, 9021, "b", 9021, 100, None], ["read", "f#1", 0],
                            ["memoize", "f#1", 0, 9022, "b", 9022, 9000, None], ["read", "f#1", 0]],
     "stale-weakref": [["memoize", "f#1", 0, 9031, "n", 9031, 200, None], ["memoize", "f#1", 0, 9032, "b", 9032, 200, None],
